@@ -55,6 +55,18 @@ def mutations(plan, rng):
     return out
 
 
+def p_nested(plan):
+    return "lattice" in plan.notes
+
+
+def header_depth(plan, site):
+    bi = site[0] if isinstance(site, tuple) else site
+    fi, mi, m = plan.blocks()[bi]
+    f = plan.families[fi]
+    st, _, _ = plan.member_header(f, m)
+    return len(repr(st))
+
+
 def program(plan, with_user_trait):
     lines = [plan.prelude(), "disjoint_impls::disjoint_impls! { " + plan.invocation_text() + " }"]
     if with_user_trait:
@@ -125,8 +137,14 @@ def run(tier, seed, replay=None):
     nbase = 8 if tier == "quick" else 150
     bases = []
     while len(bases) < nbase:
-        if rng.random() < 0.3:
+        c_ = rng.random()
+        if c_ < 0.25:
             p = g.inherent()
+        elif c_ < 0.5:
+            # nested headers (seeded change C14d: families reached only through `unlock_subset_impl_groups` must be validated too):
+            # the defect may sit in a block of a root family or of a family whose header is an instance of another one
+            p = g.lattice()
+            p.trait_unsafe = rng.random() < 0.3
         else:
             p = g.basic(nfam=rng.choice([1, 2]), nested=False, wildcard=False, generic_payloads=False, max_members=3)
             p.trait_unsafe = rng.random() < 0.3
@@ -142,6 +160,9 @@ def run(tier, seed, replay=None):
         ms = mutations(b, rng)
         if tier == "quick":
             rng.shuffle(ms)
+            if p_nested(b):
+                # prefer sites in the most specific headers
+                ms.sort(key=lambda x: -header_depth(b, x[1]))
             ms = ms[:10]
         cases += ms
     progs = [(f"c{i}", program(p, d is not None and p.mode == "trait")) for i, (d, site, p) in enumerate(cases)]
